@@ -131,13 +131,19 @@ def splitSign : Str → Bool × Str
   | '+' :: r => (false, r)
   | r => (false, r)
 
+/-- CPython refuses to convert decimal strings of more than `sys.get_int_max_str_digits()` digits
+(default 4300; underscores and the sign are not counted, leading zeros are) with `ValueError` -/
+def maxStrDigits : Nat := 4300
+
 def pyIntBase10 (s : Str) : Option Int :=
   let p := splitSign (strip s)
   match dropDigitUnderscores isAsciiDigit p.2 with
   | none => none
   | some ds =>
-    let n := parseDigits (ds.map digitVal)
-    some (if p.1 then - (n : Int) else (n : Int))
+    if ds.length > maxStrDigits then none
+    else
+      let n := parseDigits (ds.map digitVal)
+      some (if p.1 then - (n : Int) else (n : Int))
 
 def isOctDigit (c : Char) : Bool := '0' ≤ c && c ≤ '7'
 def isBinDigit (c : Char) : Bool := c == '0' || c == '1'
@@ -163,6 +169,8 @@ def pyIntBase0 (s : Str) : Option Nat :=
     match dropDigitUnderscores isAsciiDigit s with
     | none => none
     | some ds =>
+      if ds.length > maxStrDigits then none
+      else
       -- leading zeros are only allowed when the whole literal is zero
       match ds with
       | '0' :: _ :: _ => if ds.all (· == '0') then some 0 else none
